@@ -259,6 +259,18 @@ pub fn detect_version<P: AsRef<Path>>(path: P) -> Result<SnapshotVersion, Snapsh
     }
 }
 
+/// Temporary file a snapshot is written to before it is renamed over `path`.
+///
+/// `.tmp` is appended to the whole file name. (`Path::with_extension` would return `path`
+/// itself for `*.tmp` names, turning the save into an in-place overwrite, and the same
+/// temporary name for `a.bin` and `a.dat`.)
+#[must_use]
+pub fn temp_path_for(path: &Path) -> std::path::PathBuf {
+    let mut name = path.as_os_str().to_owned();
+    name.push(".tmp");
+    std::path::PathBuf::from(name)
+}
+
 /// Save a `SlabRouter` to v3 snapshot format (compressed by default).
 ///
 /// # Errors
@@ -288,7 +300,7 @@ fn save_v3_with_compression<P: AsRef<Path>>(
     compress: bool,
 ) -> Result<(), SnapshotFormatError> {
     let path = path.as_ref();
-    let temp_path = path.with_extension("tmp");
+    let temp_path = temp_path_for(path);
 
     let router_snapshot = router.snapshot();
     // Estimate total entry count from various slabs
@@ -322,6 +334,9 @@ fn save_v3_with_compression<P: AsRef<Path>>(
     } else {
         file.write_all(&router_bytes)?;
     }
+
+    // The new content must be on disk before it can replace the old snapshot.
+    file.sync_all()?;
 
     std::fs::rename(&temp_path, path)?;
 
